@@ -38,6 +38,14 @@ Ltac cfg_cases cf Hok :=
   destruct cf as [cb cdw cmw cs]; unfold cfg_ok in Hok; cbn [c_bits c_dw c_mw] in Hok;
   destruct Hok as [[-> [[->| ->] [->| ->]]]|[-> [[->| ->] ->]]].
 
+Ltac sample_consts :=
+  unfold maxsample, centersample, ipass1, fpass1, coef_max in *;
+  cbn [c_bits c_dw c_mw Z.eqb Pos.eqb] in *;
+  change maxjsample_8 with 255 in *; change centerjsample_8 with 128 in *;
+  change maxjsample_12 with 4095 in *; change centerjsample_12 with 2048 in *;
+  change idct_pass1_bits_8 with 2 in *; change idct_pass1_bits_12 with 1 in *;
+  change fdct_pass1_bits_8 with 2 in *; change fdct_pass1_bits_12 with 1 in *.
+
 Lemma DESCALE_eq x n : 1 <= n -> DESCALE x n = (x + 2 ^ (n - 1)) / 2 ^ n.
 Proof.
   intros. unfold DESCALE. rewrite Z.shiftr_div_pow2 by lia. rewrite Z.shiftl_mul_pow2 by lia. f_equal. lia.
@@ -108,3 +116,188 @@ Proof.
   rewrite !(fdct_col_const cf c Hok Hc). rewrite !(fdct_col_zero cf Hok).
   reflexivity.
 Qed.
+
+(* ---------------------------------------------------------------- range limiting *)
+Ltac destr_ifs :=
+  repeat match goal with |- context [if ?b then _ else _] => destruct b eqn:? end.
+
+Lemma range_limit_spec cf x : cfg_ok cf -> - 2 ^ 31 <= x < 2 ^ 31 ->
+  let M := maxsample cf + 1 in
+  0 <= range_limit cf x <= maxsample cf /\
+  (- 2 * M <= x < 2 * M -> range_limit cf x = Z.max 0 (Z.min (maxsample cf) (x + centersample cf))).
+Proof.
+  intros Hok Hx. unfold range_limit, range_limit_entry.
+  rewrite (wrapS_small 32 x) by (norm_pow; lia).
+  cfg_cases cf Hok; unfold maxsample, centersample; cbn [c_bits Z.eqb Pos.eqb];
+    change maxjsample_8 with 255; change centerjsample_8 with 128;
+    change maxjsample_12 with 4095; change centerjsample_12 with 2048; cbn [Z.mul Z.add Pos.mul Pos.add Pos.succ];
+    change 1023 with (Z.ones 10); change 16383 with (Z.ones 14);
+    rewrite Z.land_ones by lia; norm_pow; cbv zeta; destr_ifs; lia.
+Qed.
+
+Theorem clamp_nonexpansive_proof : forall cf x v, cfg_ok cf -> 0 <= v <= maxsample cf -> - 2 ^ 31 <= x < 2 ^ 31 ->
+  Z.abs (range_limit cf x - v) <= Z.abs (x + centersample cf - v).
+Proof.
+  intros cf x v Hok Hv Hx.
+  destruct (range_limit_spec cf x Hok Hx) as [Hr Hc]. cbv zeta in Hc.
+  assert (Hm : maxsample cf + 1 = 2 * centersample cf /\ 0 < centersample cf)
+    by (cfg_cases cf Hok; sample_consts; lia).
+  destruct (Z_lt_ge_dec x (- 2 * (maxsample cf + 1))); [lia|].
+  destruct (Z_lt_ge_dec x (2 * (maxsample cf + 1))); [|lia].
+  rewrite Hc by lia. lia.
+Qed.
+
+(* ---------------------------------------------------------------- inverse DCT of a DC-only block *)
+Lemma idct_col_dc cf c0 q0 q1 q2 q3 q4 q5 q6 q7 :
+  idct_col cf [c0; 0; 0; 0; 0; 0; 0; 0] [q0; q1; q2; q3; q4; q5; q6; q7] =
+  let d := wrapS 32 (Z.shiftl (DEQUANTIZE cf c0 q0) (ipass1 cf)) in [d; d; d; d; d; d; d; d].
+Proof. reflexivity. Qed.
+
+Lemma idct_col_zero cf q0 q1 q2 q3 q4 q5 q6 q7 : cfg_ok cf ->
+  idct_col cf [0; 0; 0; 0; 0; 0; 0; 0] [q0; q1; q2; q3; q4; q5; q6; q7] = [0; 0; 0; 0; 0; 0; 0; 0].
+Proof.
+  intros Hok. rewrite idct_col_dc. cbv zeta. unfold DEQUANTIZE.
+  assert (E : wrapS (c_mw cf) 0 = 0) by (cfg_cases cf Hok; reflexivity).
+  rewrite E. rewrite Z.mul_0_l. rewrite Z.shiftl_0_l. reflexivity.
+Qed.
+
+Lemma idct_row_dc cf w0 :
+  idct_row cf [w0; 0; 0; 0; 0; 0; 0; 0] =
+  let d := range_limit cf (DESCALE w0 (ipass1 cf + 3)) in [d; d; d; d; d; d; d; d].
+Proof. reflexivity. Qed.
+
+Definition dc_sample (cf : cfg) (Q m0 : Z) : Z :=
+  range_limit cf (DESCALE (wrapS 32 (Z.shiftl (DEQUANTIZE cf Q m0) (ipass1 cf))) (ipass1 cf + 3)).
+
+Theorem idct_dc_only : forall cf Q mult, cfg_ok cf -> length mult = 64%nat ->
+  idct_islow cf (Q :: repeat 0 63) mult = repeat (dc_sample cf Q (nth 0 mult 0)) 64.
+Proof.
+  intros cf Q mult Hok Hlen.
+  do 64 (destruct mult as [|? mult]; [discriminate Hlen|]). destruct mult; [|discriminate Hlen].
+  unfold idct_islow, dc_sample.
+  cbv [rows8 transpose8 seq map nth firstn skipn repeat Nat.mul Nat.add map2].
+  rewrite !(idct_col_zero cf) by exact Hok. rewrite idct_col_dc. cbv zeta.
+  rewrite !idct_row_dc. reflexivity.
+Qed.
+
+(* ---------------------------------------------------------------- the DC value through quantiser and inverse DCT *)
+Lemma dc_roundtrip_bound cf v q : cfg_ok cf -> 0 <= v <= maxsample cf -> 1 <= q <= 32767 ->
+  Z.abs (dc_sample cf (rdiv (64 * (v - centersample cf)) (8 * q)) (wrapS (c_mw cf) q) - v) <= (q + 15) / 16 + 1.
+Proof.
+  intros Hok Hv Hq. unfold dc_sample, DEQUANTIZE.
+  set (c := v - centersample cf).
+  set (Q := rdiv (64 * c) (8 * q)).
+  assert (HQ : 2 * Z.abs (Q * (8 * q) - 64 * c) <= 8 * q) by (apply rdiv_error; lia).
+  assert (Hcr : - centersample cf <= c < centersample cf /\ maxsample cf + 1 = 2 * centersample cf /\
+                (centersample cf = 128 \/ centersample cf = 2048))
+    by (unfold c; cfg_cases cf Hok; sample_consts; lia).
+  set (t := Q * q).
+  assert (Ht : 2 * Z.abs (t - 8 * c) <= q) by (unfold t; lia).
+  assert (HQt : Z.abs Q <= Z.abs t).
+  { unfold t. rewrite Z.abs_mul. rewrite <- (Z.mul_1_r (Z.abs Q)) at 1.
+    apply Z.mul_le_mono_nonneg_l; lia. }
+  assert (Hmw : wrapS (c_mw cf) Q = Q /\ wrapS (c_mw cf) q = q).
+  { split; cfg_cases cf Hok; cbn [c_mw]; apply wrapS_small; norm_pow; lia. }
+  destruct Hmw as [-> ->]. fold t.
+  assert (HP : ipass1 cf = 2 \/ ipass1 cf = 1) by (cfg_cases cf Hok; sample_consts; auto).
+  assert (Hx : DESCALE (wrapS 32 (Z.shiftl t (ipass1 cf))) (ipass1 cf + 3) = (t + 4) / 8).
+  { destruct HP as [-> | ->]; rewrite Z.shiftl_mul_pow2 by lia; cbn [Z.add Pos.add];
+      rewrite wrapS_small by (norm_pow; lia); rewrite DESCALE_eq by lia; norm_pow; lia. }
+  rewrite Hx. set (x := (t + 4) / 8).
+  assert (Hxr : - 2 ^ 31 <= x < 2 ^ 31) by (unfold x; norm_pow; lia).
+  destruct (range_limit_spec cf x Hok Hxr) as [Hr Hcl]. cbv zeta in Hcl.
+  destruct (Z_lt_ge_dec x (- 2 * (maxsample cf + 1))); [unfold x in *; lia|].
+  destruct (Z_lt_ge_dec x (2 * (maxsample cf + 1))); [|unfold x in *; lia].
+  rewrite Hcl by lia. unfold x, c in *. lia.
+Qed.
+
+(* ---------------------------------------------------------------- quantising (F, 0, ..., 0) *)
+Definition div_ok (cf : cfg) (q : Z) (dv : divisor) : Prop :=
+  forall x, - coef_max cf <= x <= coef_max cf -> quantize_one cf dv x = rdiv x (8 * q).
+
+Lemma start_pass_divisors_ok cf qtbl : cfg_ok cf -> (forall q, In q qtbl -> 1 <= q <= 65535) ->
+  exists divs, start_pass_divisors cf qtbl = Some divs /\ Forall2 (div_ok cf) qtbl divs.
+Proof.
+  intros Hok. unfold start_pass_divisors. induction qtbl as [|q t IH]; intros Hq.
+  - exists []. split; [reflexivity|constructor].
+  - destruct IH as [ds [Hds HF]]; [intros; apply Hq; right; assumption|].
+    destruct (quantize_is_rdiv_proof cf q Hok (Hq q (or_introl eq_refl))) as [dv [Hdv Hx]].
+    exists (dv :: ds). cbn [map all_some]. rewrite Hdv, Hds. split; [reflexivity|].
+    constructor; assumption.
+Qed.
+
+Lemma coef_max_pos cf : 0 <= coef_max cf.
+Proof. unfold coef_max. destruct (c_bits cf =? 8); lia. Qed.
+
+Lemma quantize_zeros cf qs ds : Forall2 (div_ok cf) qs ds -> (forall q, In q qs -> 1 <= q) ->
+  map2 (quantize_one cf) ds (repeat 0 (length qs)) = repeat 0 (length qs).
+Proof.
+  induction 1 as [|q d qs ds Hd HF IH]; intros Hq; [reflexivity|].
+  cbn [length repeat map2]. rewrite IH by (intros; apply Hq; right; assumption).
+  rewrite Hd by (pose proof (coef_max_pos cf); lia).
+  unfold rdiv. reflexivity.
+Qed.
+
+Lemma map_repeat' {A B} (f : A -> B) x n : map f (repeat x n) = repeat (f x) n.
+Proof. induction n; [reflexivity|]. cbn [repeat map]. rewrite IHn. reflexivity. Qed.
+
+(* ---------------------------------------------------------------- const_image_bound *)
+Theorem const_image_bound_proof : forall cf v qtbl,
+  cfg_ok cf -> 0 <= v <= maxsample cf -> length qtbl = 64%nat ->
+  (forall q, In q qtbl -> 1 <= q <= quantval_max) ->
+  exists out, roundtrip_block cf qtbl (repeat v 64) = Some out /\ length out = 64%nat /\
+    forall s, In s out -> Z.abs (s - v) <= (nth 0 qtbl 0 + 15) / 16 + 1.
+Proof.
+  intros cf v qtbl Hok Hv Hlen Hq. change quantval_max with 32767 in Hq.
+  destruct (start_pass_divisors_ok cf qtbl Hok) as [divs [Hdivs HF]]; [intros q Hin; specialize (Hq q Hin); lia|].
+  unfold roundtrip_block, forward_block. rewrite Hdivs.
+  set (c := v - centersample cf).
+  assert (Hcr : - centersample cf <= c <= centersample cf /\ - coef_max cf <= 64 * c <= coef_max cf)
+    by (unfold c; cfg_cases cf Hok; sample_consts; lia).
+  assert (Hcs : convsamp cf (repeat v 64) = repeat c 64).
+  { unfold convsamp. rewrite map_repeat'. f_equal. fold c.
+    cfg_cases cf Hok; sample_consts; apply wrapS_small; norm_pow; lia. }
+  rewrite Hcs. rewrite (fdct_const_block cf c Hok (proj1 Hcr)).
+  destruct qtbl as [|q0 qt]; [discriminate Hlen|]. inversion HF as [|? d0 ? dt Hd0 HFt]; subst.
+  assert (Hqt : length qt = 63%nat) by (cbn in Hlen; lia).
+  unfold quantize_block. cbn [map2]. rewrite <- Hqt.
+  rewrite (quantize_zeros cf qt dt HFt) by (intros q Hin; specialize (Hq q (or_intror Hin)); lia).
+  rewrite Hd0 by (exact (proj2 Hcr)). rewrite Hqt.
+  unfold inverse_block.
+  rewrite (idct_dc_only cf _ (dct_table cf (q0 :: qt)) Hok) by (unfold dct_table; rewrite map_length; exact Hlen).
+  eexists. split; [reflexivity|]. split; [apply repeat_length|].
+  intros s Hs. apply repeat_spec in Hs. subst s.
+  unfold dct_table. cbn [map nth].
+  apply dc_roundtrip_bound; [exact Hok|exact Hv|]. apply Hq. left; reflexivity.
+Qed.
+
+(* ---------------------------------------------------------------- regression facts for the divisor defect (F3) *)
+(* what start_pass_fdctmgr handed to compute_reciprocal before CLAMP_DIVISOR existed *)
+Definition unclamped_divisor (quantval : Z) : Z := wrapU 16 (Z.shiftl quantval 3).
+
+Lemma unclamped_divisor_refuted_proof :
+  (forall cf, compute_reciprocal cf (unclamped_divisor 8192) = None) /\
+  (exists q x, 1 <= q <= 32767 /\ -32767 <= x <= 32767 /\
+               unclamped_divisor q <> 0 /\ rdiv x (unclamped_divisor q) <> rdiv x (8 * q)) /\
+  scaled_divisor 8192 = 65535 /\ scaled_divisor 8200 = 65535.
+Proof.
+  split; [intros cf; reflexivity|]. split; [|split; reflexivity].
+  exists 8200, 1000. vm_compute. repeat split; discriminate.
+Qed.
+
+(* non-vacuity material *)
+Definition cf12 : cfg := mkcfg 12 64 32 false.
+Lemma cfg_ok_examples : cfg_ok cf16 /\ cfg_ok cf32 /\ cfg_ok cf12.
+Proof. unfold cfg_ok; cbn; intuition. Qed.
+
+Lemma roundtrip_examples :
+  roundtrip_block cf16 (repeat 16 64) (repeat 200 64) = Some (repeat 200 64) /\
+  roundtrip_block cf16 (40 :: repeat 1 63) (repeat 77 64) = Some (repeat 78 64) /\
+  roundtrip_block cf12 (32767 :: repeat 255 63) (repeat 4095 64) = Some (repeat 2048 64) /\
+  (exists rc, compute_reciprocal cf16 65535 = Some rc /\ r_ret rc = 1 /\
+              quantize_recip_one cf16 rc 32767 = 0 /\ quantize_recip_one cf16 rc (-32767) = 0 /\
+              quantize_simd_one rc 32767 = 0) /\
+  (exists rc, compute_reciprocal cf16 24 = Some rc /\ r_ret rc = 1 /\
+              quantize_recip_one cf16 rc 100 = 4 /\ quantize_recip_one cf16 rc (-108) = -5 /\
+              quantize_simd_one rc (-108) = -5).
+Proof. vm_compute. repeat split; try reflexivity; eexists; repeat split; reflexivity. Qed.
